@@ -49,7 +49,7 @@ Ambiguous(s) == \E p \in P, k \in Kinds, n \in N : s.own[p][k][n] = Absent /\ Le
 Landing(s, k, n) ==
   LET c == s.cur IN
   IF s.own[c][k][n] # Absent THEN {c}
-  ELSE IF Providers(s, c, k, n) # <<>> THEN {Providers(s, c, k, n)[1]}
+  ELSE IF Providers(s, c, k, n) # <<>> THEN {Providers(s, c, k, n)[i] : i \in 1..Len(Providers(s, c, k, n))}   \* any of them when several used packages provide the name
   ELSE {c} \cup BareExporters(s, c, k, n)
 
 \* op: [op, a, b, c]
@@ -86,8 +86,13 @@ Step(s, o) ==
 Transitive(s, p, k, n) == /\ Resolve(s, p, k, n) = Absent
                           /\ \E q \in P : /\ InSeq(q, s.uses[p]) /\ s.own[q][k][n] = Absent
                                            /\ Resolve(s, q, k, n) # Absent
+\* (when several used packages export a definition of the name - a name conflict in Common Lisp - the statement does not
+\*  say which one is seen: any of them is accepted; as soon as one provider is left it is that one)
 ObsOK(s, obs) ==      \* obs[p][k][n] : value seen from inside p (0 = unbound/undefined)
-  \A p \in P, k \in Kinds, n \in N : Transitive(s, p, k, n) \/ obs[p][k][n] = Resolve(s, p, k, n)
+  \A p \in P, k \in Kinds, n \in N :
+     \/ Transitive(s, p, k, n) \/ obs[p][k][n] = Resolve(s, p, k, n)
+     \/ /\ s.own[p][k][n] = Absent /\ Len(Providers(s, p, k, n)) > 1
+        /\ \E i \in 1..Len(Providers(s, p, k, n)) : obs[p][k][n] = s.own[Providers(s, p, k, n)[i]][k][n]
 QObsOK(s, q) ==       \* q[p][k][n] = [ext |-> p:n, int |-> p::n] seen from a neutral package
   \A p \in P, k \in Kinds, n \in N :
      IF s.own[p][k][n] # Absent
